@@ -40,6 +40,18 @@ def check(run):
         ev = cev[b["l"] - 1]
         run.note("ctor:%s(%s):%s" % (ev["c"], ev["typ"], "+".join(b["why"])), "constructor reply %s differs from Constructors.tla" % json.dumps(ev["res"]))
     n += len(cev)
+    # growth leg (observations only): the page constructors, Pages.tla
+    run.tlc_model("Pages", "pages_model", workers=4)
+    run.tlc_eval("PagesGen", "pages_gen", workers=1)
+    run.vh(["pages-run", run.spec_path("pages_calls.ndjson"), run.spec_path("pages_trace.ndjson")])
+    pv = run.tlc_eval("PagesTrace", "pages_trace").json_lines()[-1]
+    pev = vlib.read_ndjson(run.spec_path("pages_trace.ndjson"))
+    if pv["consumed"] != len(pev) or len(pev) < 100:
+        raise vlib.Infra("Pages trace not fully consumed: %s of %d" % (pv["consumed"], len(pev)))
+    for b in pv["bad"]:
+        ev = pev[b["l"] - 1]
+        run.note("page:%s(%s):%s" % (ev["kind"], ev["parent"].get("g"), "+".join(b["why"])), "page constructor result differs from Pages.tla %s" % ev.get("panic", "")[:100])
+    run.cov["page_constructor_calls_judged"] = len(pev)
     for i, ev in enumerate(vlib.read_ndjson(run.path("trace.ndjson"))):
         if i % 200 == 5:
             run.sample(ev)
